@@ -274,6 +274,107 @@ fn check_mutation<T: Obj>(t: &mut Tally, v: u32, b1: &[u8], m: &Mutation) -> PRe
 	}
 }
 
+/// Byte sweep over a valid encoding (a sample of positions chosen from the bytes themselves, five replacement
+/// values each): if the perturbed bytes decode, re-encoding the decoded value must give back exactly the bytes
+/// the decoder consumed — otherwise the decoder normalised something instead of refusing it.
+fn sweep<T: Obj>(t: &mut Tally, v: u32, b1: &[u8]) -> PResult {
+	let tag = T::tag();
+	let n = b1.len();
+	if n == 0 {
+		return Ok(());
+	}
+	let picks: Vec<usize> = if n <= 40 {
+		(0..n).collect()
+	} else {
+		let h = hash_of(&(b1, v));
+		let mut p: Vec<usize> = (0..24u64).map(|i| (hash_of(&(h, i)) % n as u64) as usize).collect();
+		// the head of an encoding holds tags, versions and counts
+		p.extend(0..12usize);
+		p
+	};
+	let dump = std::env::var("GV_C10_SWEEP_DUMP").ok();
+	for at in picks {
+		let o = b1[at];
+		for nb in [o ^ 1, o ^ 0x80, 0u8, 0xff, o.wrapping_add(1)] {
+			if nb == o {
+				continue;
+			}
+			let mut m = b1.to_vec();
+			m[at] = nb;
+			t.evals += 1;
+			let (r, used) = dec::<T>(&m, v);
+			let y = match r {
+				Err(_) => {
+					t.class("sweep:refused".into());
+					continue;
+				}
+				Ok(y) => y,
+			};
+			let re = enc(&y, v);
+			let same = re.as_ref().map(|r| used <= m.len() && r[..] == m[..used]).unwrap_or(false);
+			if same {
+				t.class("sweep:decoded-canonical".into());
+				continue;
+			}
+			// Normalisations the unchanged tree is known to perform (measured by the probes, see DESIGN C10):
+			// undefined capability bits are dropped (forward compatibility), HeaderEntry's flag byte is read as
+			// "non-zero", a bitmap block may arrive in any of its three modes, and a range proof's declared
+			// length is clamped (the open known finding) — in a container of range proofs a lowered count
+			// re-frames the following bytes and can run into that same clamp, which shows as an input that
+			// is not consumed to its end.
+			let rp_prefix = (0..8usize).any(|k| at >= k && at - k + 8 <= n && b1[at - k..at - k + 8] == [0, 0, 0, 0, 0, 0, 2, 0xa3]);
+			let holds_rp = ["RangeProof", "Output", "Transaction", "Block", "CompactBlock"].iter().any(|w| tag.contains(w));
+			let tolerated = if (tag == "Hand" || tag == "Shake") && (4..8).contains(&at) {
+				Some("capability-bits")
+			} else if tag == "GetPeerAddrs" && at < 4 {
+				Some("capability-bits")
+			} else if tag == "HeaderEntry" && at == n - 1 {
+				Some("flag-byte")
+			} else if tag.contains("Bitmap") {
+				Some("bitmap-block-mode")
+			} else if rp_prefix {
+				Some("rangeproof-length")
+			} else if holds_rp && used != m.len() {
+				Some("rangeproof-length-after-reframing")
+			} else {
+				None
+			};
+			match tolerated {
+				Some(w) => t.class(format!("sweep:normalised({}):{}", w, tag)),
+				None => fail!(
+					format!("sweep-normalised:{}", tag),
+					"{} v{}: byte {} of a valid encoding changed from {:#04x} to {:#04x}: the result decodes (consumed {} of {}) but the decoded value re-encodes differently ({}); valid={} perturbed={}",
+					tag,
+					v,
+					at,
+					o,
+					nb,
+					used,
+					m.len(),
+					match &re {
+						Ok(r) => format!("{} bytes, first difference at {:?}", r.len(), r.iter().zip(m.iter()).position(|(a, b)| a != b)),
+						Err(e) => format!("writer error {:?}", e),
+					},
+					hex_short(b1),
+					hex_short(&m)
+				),
+			}
+			if let Some(d) = &dump {
+				use std::io::Write;
+				let first_diff = re.as_ref().ok().map(|r| r.iter().zip(m.iter()).position(|(a, b)| a != b).unwrap_or(r.len().min(used)));
+				if let Ok(mut f) = std::fs::OpenOptions::new().create(true).append(true).open(d) {
+					let _ = f.write_all(
+						format!(
+						"{}\n",
+						json!({"tag": tag, "v": v, "at": at, "len": n, "old": o, "new": nb, "used": used, "re_len": re.as_ref().map(|r| r.len()).ok(), "re_err": re.as_ref().err().map(|e| format!("{:?}", e)), "first_diff": first_diff, "ctx": hex(&b1[at.saturating_sub(12)..(at + 4).min(n)])})
+					).as_bytes());
+				}
+			}
+		}
+	}
+	Ok(())
+}
+
 /// The whole C10 check for one value.
 fn check_obj<T: Obj>(ctx: &Ctx, x: &T, counting: bool) -> PResult {
 	let ev = &ctx.ev;
@@ -385,6 +486,10 @@ fn check_obj<T: Obj>(ctx: &Ctx, x: &T, counting: bool) -> PResult {
 		x.mutations(v, &b1, &mut muts);
 		for m in &muts {
 			check_mutation::<T>(&mut t, v, &b1, m)?;
+		}
+		// generic byte sweep: any perturbed encoding that still decodes must be the canonical encoding of what it decodes to
+		if !counting || !ctx.quick() || hash_of(&(&b1, v)) % 8 == 0 {
+			sweep::<T>(&mut t, v, &b1)?;
 		}
 		// trailing byte: measured, never asserted
 		if counting && v == ProtocolVersion::local().0 {
